@@ -847,3 +847,99 @@ def r7_7(rep):
             rep.check(ok, key, "the early `return Same` requires the node's own value to be the top `%s` of its lattice; any weaker test "
                       "freezes an intermediate value and makes the result depend on the visiting order" % (top or "?").split("::")[-1], b.loc(n))
     rep.check(n_exits >= 4, "early-exits-found", "%d early exits on the node's own state" % n_exits)
+
+
+# =====================================================================================================
+# R7.8  the lookups codegen uses are projections of the published results
+# =====================================================================================================
+ASSERTS = {"assert", "debug_assert", "assert_eq", "debug_assert_eq", "extra_assert", "assert_ne"}
+LOOKUP_SELF_CALLS_OK = {"in_codegen_phase"}
+
+
+@RULES.rule("R7.8", "what codegen reads through `lookup_*` is the analysis result itself, not the result adjusted by other context", floor=10)
+def r7_8(rep):
+    """The fixed point is only what the bindings are built from if `BindgenContext::lookup_*` hands it out unchanged.  A lookup
+    that answers differently for some ids (not allowlisted, blocklisted, …) makes codegen act on a value the rules never produced,
+    while `constrain` — which reads its own map — keeps using the other one: a base outside the allowlist was ZeroSized for the
+    analysis and NonZeroSized for codegen in an independently seeded change.  Per lookup: no branch or early return outside
+    assertions, and the only parts of `self` read are published analysis results (or other lookups)."""
+    prog = rep.prog
+    CTX = "ir::context::BindgenContext"
+    published = set()
+    for b in prog.methods_of(CTX):
+        if any((c.get("callee") or "") == "ir::analysis::analyze" for c in b.calls(lambda n: n["k"] == "Call")):
+            for n in b.walk():
+                if n["k"] == "Assign" and strip(n["l"]).get("k") == "Field" and strip(n["l"]).get("adt") == CTX:
+                    published.add(strip(n["l"])["f"])
+    rep.need(len(published) >= 8, "fields of BindgenContext assigned from analyze::<..>()")
+    n = 0
+    for b in sorted(prog.methods_of(CTX), key=lambda x: x.path):
+        nm = b.path.split("::")[-1]
+        if not nm.startswith("lookup_"):
+            continue
+        n += 1
+        probs = []
+        for x in b.nodes:
+            if in_macro(b, x, ASSERTS | LOG):
+                continue
+            if x["k"] in ("If", "Match", "Ret", "Loop", "While"):
+                probs.append(("%s at %s" % (x["k"].lower(), b.loc(x)), x))
+            if x["k"] == "Field" and x.get("adt") == CTX and x["f"] not in published:
+                probs.append(("reads self.%s" % x["f"], x))
+            if x["k"] == "MCall" and strip(x["recv"]).get("k") == "Local" and strip(x["recv"]).get("name") == "self":
+                cal = (x.get("callee") or x.get("resolved") or x["name"]).split("::")[-1]
+                if not (cal.startswith("lookup_") or cal in LOOKUP_SELF_CALLS_OK):
+                    probs.append(("calls self.%s()" % cal, x))
+        rep.check(not probs, "projection:" + nm,
+                  "a projection of the published result" if not probs else
+                  "the answer depends on more than the analysis result (%s): codegen then acts on a value the analysis' rules never "
+                  "produced and `constrain` never sees" % "; ".join(p[0] for p in probs[:3]), b.loc(probs[0][1] if probs else b.root))
+    rep.need(n >= 10, "BindgenContext::lookup_* functions")
+
+
+# =====================================================================================================
+# R7.9  "the same type under another name" is one case in every analysis
+# =====================================================================================================
+NAME_FORWARDERS = ("Alias", "TemplateAlias", "ResolvedTypeRef")
+
+
+def _canon_noloc(b, n, depth=14):
+    return re.sub(r"local:\w+", "local", b.canon(n, depth))
+
+
+@RULES.rule("R7.9", "typedefs, alias templates and resolved type references are treated alike by every analysis", floor=18)
+def r7_9(rep):
+    """`TypeKind::Alias`, `TypeKind::TemplateAlias` and `TypeKind::ResolvedTypeRef` all stand for "the type `t` under another name";
+    every fact an analysis computes for `t` holds for them.  Each analysis forwards them in one match arm.  When one of the three
+    falls out of that arm (into the `_ => Same` catch-all, without any compiler warning) the fact stops at that kind of node: a class
+    inheriting its vtable through `template<class U> using A = Base<U>` was given a second vtable pointer in a seeded change.
+    Per analysis and per match over the type kind that names one of the three: all three are named, in arms with the same body."""
+    prog = rep.prog
+    n = 0
+    for p, b in sorted(prog.bodies.items()):
+        if not p.startswith("ir::analysis::") and "ir::analysis::" not in (b.fact.get("impl_self") or ""):
+            continue
+        for m in b.nodes:
+            if m["k"] != "Match":
+                continue
+            where = {}
+            for i, a in enumerate(m["arms"]):
+                for v in pat_variants(a["pat"]):
+                    if v.startswith(tg.TYPEKIND) and v[len(tg.TYPEKIND):] in NAME_FORWARDERS:
+                        where.setdefault(v[len(tg.TYPEKIND):], []).append(i)
+            if not where:
+                continue
+            who = short(b.fact.get("impl_self") or "")
+            fn = (who + "::" if who else "") + p.split("::")[-1]
+            for k in NAME_FORWARDERS:
+                n += 1
+                key = "forwards:%s@%s" % (k, fn)
+                if k not in where:
+                    rep.bad(key, "`TypeKind::%s` is not named in the match that forwards %s: it falls into the catch-all and the fact is not "
+                            "propagated through this kind of node" % (k, "/".join(sorted(where))), b.loc(m))
+                    continue
+                ref = where[sorted(where)[0]][0]
+                same = all(i == ref or _canon_noloc(b, m["arms"][i]["body"]) == _canon_noloc(b, m["arms"][ref]["body"]) for i in where[k])
+                rep.check(same, key, "handled with the other name-forwarding kinds" if same else
+                          "`TypeKind::%s` is handled differently from `TypeKind::%s` although both only rename a type" % (k, sorted(where)[0]), b.loc(m))
+    rep.need(n >= 18, "matches over the type kind in ir::analysis that name Alias / TemplateAlias / ResolvedTypeRef")
